@@ -143,6 +143,14 @@ pub fn check(c: &Case) -> Checked {
     }
     // a program refused identically by both is fine; keep only one entry per signature
     res.violations.dedup_by(|a, b| a.0 == b.0);
+    // near-miss programs (ill-typed texts the checker lets through) get signatures of their own,
+    // so that a recorded hole of the type checker never hides the same crash site for a
+    // well-typed program
+    if c.origin.as_deref().is_some_and(|o| o.starts_with("nearmiss")) {
+        for v in res.violations.iter_mut() {
+            v.0 = format!("nearmiss: {}", v.0);
+        }
+    }
     res
 }
 
